@@ -88,7 +88,7 @@ pub fn check(c: &Case) -> Outcome {
     }
     for k in 1..base.recs.len() {
         let (p, r) = (&base.recs[k - 1], &base.recs[k]);
-        let u = 8.0 * ulp(r.xold.abs().max(p.x.abs()));
+        let u = 4.0 * ulp(r.xold.abs().max(p.x.abs()).max(r.x.abs()));
         if (r.xold - p.x).abs() > u {
             return Outcome::viol(format!("{}: callback {} starts at xold={:e} but the previous one ended at x={:e} (gap {:e})", name, k, r.xold, p.x, r.xold - p.x));
         }
